@@ -233,6 +233,7 @@ def _cfg(**kw):
     base["subclass_p"] = 8
     base["unsorted_p"] = 6
     base["twin_entry_p"] = 6
+    base["duck_instruments"] = True
     base["reuse_p"] = 6
     base["share_instruments"] = True
     base.update(kw)
